@@ -1,0 +1,12 @@
+//go:build verif
+
+// Hook for the verification harness in /verif (properties C30, C35, C29).
+// Add-only, compiled only with the `verif` build tag; changes no behaviour.
+
+package uasc
+
+// SrvsecCfg returns the configuration a stand-alone instance reads (policy URI
+// written into the asymmetric header, security mode, certificate, thumbprint),
+// so that a harness can build OpenSecureChannel chunks whose header fields
+// differ from the algorithm that secures them.
+func (v *VerifInstance) SrvsecCfg() *Config { return v.C.sc.cfg }
